@@ -150,6 +150,10 @@ pub fn profile(p: &Params) -> Profile {
         "C02" => {
             pr.w_poll = 45;
             pr.w_restart = 5;
+            // "precisely the RETAINED messages": polls after retention passes too (added after seed C02r2-B)
+            pr.expiry = true;
+            pr.w_maintain = 3;
+            pr.w_advance = 4;
         }
         "C03" => {
             pr.w_restart = 14;
